@@ -42,6 +42,8 @@ ANSI = re.compile(rb"\x1b\[[0-9;]*m")
 
 def mask(mode, out):
     out = TIME_RE.sub(b"TIME", out)
+    if mode == "v-printjson":
+        out = ANSI.sub(b"", out)       # --print-json prints the record next to the console report, whose colours follow the terminal settings
     return out
 
 
@@ -109,7 +111,7 @@ def modes_for(sdir):
 
 
 def build_inputs(rng, sdir):
-    o = gen.Opts(types=True, calls=True, msgs=True, max_rules=4, max_lines=4)
+    o = gen.Opts(types=True, calls=True, msgs=True, max_rules=4, max_lines=4, keys_filters=True, some_lets=True)
     docs = [gen.gen_cfn_doc(rng, nres=rng.randint(2, 5)) for _ in range(3)]
     for d in docs:
         d.setdefault("Resources", {"x": {"Type": "AWS::S3::Bucket", "Properties": {"a": 1}}})
@@ -138,6 +140,10 @@ def build_inputs(rng, sdir):
         if f.get("default"):
             f["default"] = []
         t = gen.pfile(f)
+        if i == 2:
+            # key filters over several resources, failing for each: every selected entry shows up in the report, in document order
+            t += ('rule f2_keys_in {\n    Resources[ keys in ["r0", "r1", "r2", "r3", "r4", "x"] ].Type == "nope" <<keys in>>\n    Resources[ keys not in ["zz"] ].Type == "nope"\n}\n'
+                  'rule f2_keys_query {\n    let names = ["r0", "r1", "r2", "x"]\n    Resources[ keys == %names ].Type == "nope"\n    Resources[ keys == /^r/ ].Properties !exists\n}\n')
         texts.append(t)
         open(os.path.join(sdir, "r%d.guard" % i), "w").write(t)
     # Terraform-plan-shaped documents (the console reporter has a separate view for them): >= 3 non-compliant resources each
